@@ -84,10 +84,14 @@ pub fn ident(id: &str) -> RcDoc<'_> {
 }
 
 pub fn quote_ident(id: &str) -> RcDoc<'_> {
-    str("'")
-        .append(format!("{}", id.escape_debug()))
-        .append("'")
-        .append(RcDoc::space())
+    // `escape_debug` spells NUL as `\0`, which JavaScript (the consumer of these quoted
+    // names) reads as the start of an octal escape when a digit follows.
+    let escaped = id
+        .split('\0')
+        .map(|part| part.escape_debug().to_string())
+        .collect::<Vec<_>>()
+        .join("\\x00");
+    str("'").append(escaped).append("'").append(RcDoc::space())
 }
 
 /// Separate each item in `docs` with the separator `sep`, and enclose the result in `open` and `close`.
